@@ -92,6 +92,13 @@ func edGenCommon(g *Gen, n int, salt int) {
 		}
 		if edEmitSession {
 			g.Emit(edSessionLine(work, file, ops), hit, tags...)
+			if g.Chance(4) {
+				f2, o2, h2 := edGenSessionOpt(g.Rand, work, false)
+				out := g.Emit(edSessionLine(work, f2, o2), h2, "no-cleanup-before-bulk")
+				if strings.HasPrefix(out, "panic") {
+					g.st.Tags["impl-panic-on-cleared-entry"]++
+				}
+			}
 		}
 	}
 }
